@@ -38,11 +38,14 @@ Range(s) == {s[i] : i \in 1..Len(s)}
 IsPrefix(s, t) == Len(s) <= Len(t) /\ \A i \in 1..Len(s) : s[i] = t[i]
 
 \* all mappings of a declaration, in declaration order: [pred, s, t, k]
+\* An AddInput WITHOUT mappings hands the predecessor's entire output over as the entire input: it is the mapping with the empty
+\* source and the empty target path.
 RECURSIVE AllMaps(_)
 AllMaps(decl) ==
   IF Len(decl) = 0 THEN <<>>
   ELSE LET g == decl[1] IN
-       [i \in 1..Len(g.maps) |-> [pred |-> g.pred, s |-> g.maps[i].s, t |-> g.maps[i].t, k |-> g.maps[i].k]] \o AllMaps(Tail(decl))
+       (IF Len(g.maps) = 0 THEN <<[pred |-> g.pred, s |-> <<>>, t |-> <<>>, k |-> "tree"]>>
+        ELSE [i \in 1..Len(g.maps) |-> [pred |-> g.pred, s |-> g.maps[i].s, t |-> g.maps[i].t, k |-> g.maps[i].k]]) \o AllMaps(Tail(decl))
 
 \* order-free reference relation
 Overlap(M) == \E i, j \in 1..Len(M) : i # j /\ IsPrefix(M[i].t, M[j].t)
